@@ -244,14 +244,20 @@ structure S2 where
   b : Nat
   r : Rat
   phi : Rat
+  /-- the inverse flag `cmd.op.dagger` -/
+  dag : Bool := false
 deriving Repr, DecidableEq
 
 def S2.key (c : S2) : Key := (c.a, c.b)
 
+/-- the squeezing a command contributes: `S2gate(r, phi).H = S2gate(-r, phi)` -/
+def S2.effR (c : S2) : Rat := if c.dag then -c.r else c.r
+
 inductive MErr | circuit | index | fuel
 deriving Repr, DecidableEq
 
-/-- `for k, i in enumerate(sorted(indices, reverse=True))`: `removed_cmd = B.pop(i)`, `r += …`,
+/-- `for k, i in enumerate(sorted(indices, reverse=True))`: `removed_cmd = B.pop(i)`, `r += ±p[0]` (sign by the
+inverse flag),
 `if k > 0 and phi_new != phi: raise CircuitError`, `phi = phi_new`.  State `(B, r, phi)`. -/
 def popLoop : List Nat → Nat → List S2 → Rat → Rat → Except MErr (List S2 × Rat × Rat)
   | [], _, B, r, phi => .ok (B, r, phi)
@@ -260,14 +266,14 @@ def popLoop : List Nat → Nat → List S2 → Rat → Rat → Except MErr (List
     | none => .error .index
     | some c =>
       if k > 0 ∧ c.phi ≠ phi then .error .circuit
-      else popLoop is (k + 1) (B.eraseIdx i) (r + c.r) c.phi
+      else popLoop is (k + 1) (B.eraseIdx i) (r + c.effR) c.phi
 
 /-- one pass of the loop body for the group `(mode, indices)`; `indices` is ascending (as produced by
 `list_duplicates`), so `sorted(indices, reverse=True)` is its reverse.  `B.insert(indices[0], …)`. -/
 def mergeOne (B : List S2) (g : Key × List Nat) : Except MErr (List S2) :=
   match popLoop g.2.reverse 0 B 0 0 with
   | .error e => .error e
-  | .ok (B', r, phi) => .ok (B'.insertIdx (g.2.headD 0) ⟨g.1.1, g.1.2, r, phi⟩)
+  | .ok (B', r, phi) => .ok (B'.insertIdx (g.2.headD 0) ⟨g.1.1, g.1.2, r, phi, false⟩)
 
 /-- `duplicates = next(list_duplicates(regrefs), None); while duplicates is not None: …` (the repaired
 loop: positions are recomputed after every merge).  `fuel` bounds the number of iterations. -/
@@ -293,7 +299,7 @@ def mergeS2 (half : Nat) (B : List S2) : Except MErr (List S2) :=
 pair; `missing` is iterated in Python-set order, passed in as `missingOrder`), then the merge. -/
 def xunitaryS2 (half : Nat) (B : List S2) (missingOrder : List Nat) : Except MErr (List S2) :=
   if B.all (fun c => c.a < half ∧ c.b = c.a + half) then
-    let B1 := missingOrder.foldl (fun acc i => (⟨i, i + half, 0, 0⟩ : S2) :: acc) B
+    let B1 := missingOrder.foldl (fun acc i => (⟨i, i + half, 0, 0, false⟩ : S2) :: acc) B
     mergeS2 half B1
   else .error .circuit
 
@@ -356,5 +362,91 @@ def updateLoops (len : Nat) : (prev : Nat → Rat) → List (Rat × Nat × Bool 
 
 def updateParams (len : Nat) (loops : List (Rat × Nat × Bool × List Rat)) : List (List Rat) :=
   updateLoops len (fun _ => 0) loops
+
+/-! ## `numpy.allclose` and the unitary / adjacency-matrix checks of `Xunitary.compile` / `Xcov.compile`
+
+Complex numbers are pairs `(re, im)` of rationals (the exact values of the floats).  The matrices come from
+third-party numerics (`GaussianUnitary` symplectic, thewalrus `Amat`); what is SF's own is which blocks are
+taken, what they are compared with, in which order, with which tolerance, and which error follows. -/
+
+abbrev Cq := Rat × Rat
+abbrev CM := List (List Cq)
+
+/-- default `atol=1e-8`, `rtol=1e-5` of `numpy.allclose` -/
+def atolNp : Rat := 1 / 100000000
+def rtolNp : Rat := 1 / 100000
+
+/-- `|a - b| <= atol + rtol * |b|` for complex `a`, `b`, decided exactly: with `d² = |a-b|²`, `n² = |b|²`,
+`d ≤ atol + rtol·n  ⟺  d² − atol² − rtol² n² ≤ 2·atol·rtol·n`, and the last inequality is decided by its sign
+and its square. -/
+def closeC (a b : Cq) : Bool :=
+  let d2 := (a.1 - b.1) * (a.1 - b.1) + (a.2 - b.2) * (a.2 - b.2)
+  let n2 := b.1 * b.1 + b.2 * b.2
+  let lhs := d2 - atolNp * atolNp - rtolNp * rtolNp * n2
+  if lhs ≤ 0 then true else decide (lhs * lhs ≤ 4 * atolNp * atolNp * rtolNp * rtolNp * n2)
+
+/-- `np.allclose(A, B)` entry by entry (same shapes) -/
+def allcloseM (A B : CM) : Bool :=
+  (A.zip B).all fun rr => (rr.1.zip rr.2).all fun ab => closeC ab.1 ab.2
+
+/-- `A[r0:r1, c0:c1]` -/
+def blockM (A : CM) (r0 r1 c0 c1 : Nat) : CM :=
+  ((A.drop r0).take (r1 - r0)).map fun row => (row.drop c0).take (c1 - c0)
+
+def zerosM (r c : Nat) : CM := List.replicate r (List.replicate c (0, 0))
+def identM (n : Nat) : CM := (List.range n).map fun i => (List.range n).map fun j => if i = j then (1, 0) else (0, 0)
+
+def getR (S : List (List Rat)) (i j : Nat) : Rat := (S.getD i []).getD j 0
+
+/-- `S @ S.T` -/
+def gramR (m : Nat) (S : List (List Rat)) : CM :=
+  (List.range m).map fun i => (List.range m).map fun j =>
+    (((List.range m).map fun k => getR S i k * getR S j k).foldl (· + ·) 0, 0)
+
+/-- thewalrus `expand(S, modes, N)`: the `2k × 2k` matrix `S` (xxpp) of the listed modes inside the identity on
+`N` modes -/
+def expandS (S : List (List Rat)) (modes : List Nat) (N : Nat) : List (List Rat) :=
+  let k := modes.length
+  let pos (i : Nat) : Option Nat :=      -- row/column of the big matrix ↦ row/column of S
+    if i < N then (modes.idxOf? i) else (modes.idxOf? (i - N)).map (· + k)
+  (List.range (2 * N)).map fun i => (List.range (2 * N)).map fun j =>
+    match pos i, pos j with
+    | some a, some b => getR S a b
+    | _, _ => if i = j then 1 else 0
+
+inductive XErr | notInterferometer | mix | notIdentical
+deriving Repr, DecidableEq
+
+/-- `U = S[:n, :n] - 1j * S[:n, n:]` of the (expanded, if it acts on fewer modes) symplectic matrix -/
+def xunitaryU (half : Nat) (S : List (List Rat)) (used : List Nat) : CM :=
+  let n := 2 * half
+  let S' := if used.length ≠ n then expandS S used n else S
+  (List.range n).map fun i => (List.range n).map fun j => (getR S' i j, - getR S' i (j + n))
+
+/-- the validation part of `Xunitary.compile` after `GaussianUnitary().compile`: `S` acts on `used` (all modes,
+in order, when the sequence is empty); orthogonality is tested on `S` as returned, the rest on the expanded
+matrix.  Returns `U11`. -/
+def xunitaryCheck (half : Nat) (S : List (List Rat)) (used : List Nat) : Except XErr CM :=
+  if ¬ allcloseM (gramR S.length S) (identM S.length) then .error .notInterferometer else
+  let U := xunitaryU half S used
+  let n := 2 * half
+  if ¬ allcloseM (blockM U 0 half half n) (zerosM half half) ∨ ¬ allcloseM (blockM U half n 0 half) (zerosM half half)
+  then .error .mix
+  else if ¬ allcloseM (blockM U 0 half 0 half) (blockM U half n half n) then .error .notIdentical
+  else .ok (blockM U 0 half 0 half)
+
+/-- the validation part of `Xcov.compile`: `B = A[:n, :n]` of the `A` matrix; `B00`, `B11` must vanish and
+`B01` must equal `B10` (`np.allclose(B01, B10)`).  Returns `B01` (handed to `takagi`). -/
+def xcovCheck (half : Nat) (A : CM) : Except XErr CM :=
+  let n := 2 * half
+  let B := blockM A 0 n 0 n
+  if ¬ allcloseM (blockM B 0 half 0 half) (zerosM half half) ∨ ¬ allcloseM (blockM B half n half n) (zerosM half half)
+  then .error .mix
+  else if ¬ allcloseM (blockM B 0 half half n) (blockM B half n 0 half) then .error .notIdentical
+  else .ok (blockM B 0 half half n)
+
+/-- `sq_seq` of `Xcov.compile`: the `i`-th Takagi value (in the order `takagi` returns them) squeezes the pair
+`(i, i + half)`; entries are `(first mode, second mode, index of the Takagi value)` -/
+def xcovSqueezers (half : Nat) : List (Nat × Nat × Nat) := (List.range half).map fun i => (i, i + half, i)
 
 end SFV.Hw
